@@ -101,7 +101,8 @@ def run(ctx):
     has_keys = set()
     generic = False
     for p in mpaths:
-        for c in p.calls():
+        for c in list(p.calls()) + [c_ for c_, _pol in p.cond
+                                    if kind(c_) == 'call']:
             if c[1] == 'hasattr' and len(c[3]) == 2 and c[3][0] == selft \
                     and is_const(c[3][1]):
                 has_keys.add(c[3][1][1])
